@@ -42,4 +42,5 @@ def run_for(prefixes, clause):
                               'the compiling twin no longer compiles: the witness next to it proves nothing'))
         res.floor('witness doctests', n, 4)
         return [res]
+    runner.needs_repo_build = True
     return runner
